@@ -68,7 +68,9 @@ func runC08Overlap(run *Run, iter int, variant string) (out []*c01Result, inconc
 	if _, err := A.ML().Join([]string{B.EP.Addr}); err != nil {
 		return nil, "join: " + err.Error()
 	}
-	if !waitUntil(10*time.Second, func() bool { return A.ML().VerifNumQueued() == 0 && B.ML().VerifNumQueued() == 0 && len(B.MemberNames()) == 2 }) {
+	if !waitUntil(10*time.Second, func() bool {
+		return A.ML().VerifNumQueued() == 0 && B.ML().VerifNumQueued() == 0 && len(B.MemberNames()) == 2
+	}) {
 		return nil, "cluster did not settle"
 	}
 	switch variant {
